@@ -114,6 +114,8 @@ _RANGE_FROM_1 = ("struct", "std::ops::RangeFrom", "RangeFrom", {"start": ("lit",
 
 def _let(pat, scr):
     """the condition `let PAT = SCR`; `let Some(..) = xs.first() / xs.split_first()` (binders only) is `!xs.is_empty()`"""
+    if re.fullmatch(r"[A-Za-z_][\w:]*\(_\)", pat):
+        pat = pat[:-3] + "($)"          # whether the payload is bound or ignored does not matter for the test
     if scr[0] == "call" and scr[1] in SLICE_HEADS and len(scr[2]) == 1 and re.fullmatch(r"(v1|Option)::Some\([$_(),]*\)", pat):
         return ("op", "Not", [("call", "slice::is_empty", [scr[2][0]])])
     if pat.startswith("[") and pat.endswith("]") and ".." not in pat and re.fullmatch(r"[\[\]$_(),]*", pat):
@@ -2135,7 +2137,11 @@ class Norm:
         if tail == ("lit", "()") and e.get("ty") == "!":
             tail = ("opaque", "diverge")
         if id(e) in self._ret_blocks and tail[0] == "call" and tail[1] == "Option::map" and len(tail[2]) == 2 and tail[2][1][0] == "closure" and tail[2][1][2] == 1:
-            tail = ("call", "Some", [_apply(tail[2][1], ("try", tail[2][0]))])      # opt.map(|v| f(v)) as the result of the function  ==  Some(f(opt?))
+            clo = tail[2][1]
+            if any(x == ("cparam", clo[1], 0) for x in subterms(clo[3])):
+                tail = ("call", "Some", [_apply(clo, ("try", tail[2][0]))])      # opt.map(|v| f(v)) as the result of the function  ==  Some(f(opt?))
+            else:
+                tail = ("call", "then", [_let("v1::Some($)", tail[2][0]), _apply(clo, ("lit", "()"))])      # opt.map(|_| v)  ==  opt.is_some().then(|| v)
         if effs and tail[0] == "if" and (_is_unit(tail[3]) or _is_unit(tail[2])):
             both = _found_flag_loops(effs + [tail])
             if len(both) < len(effs) + 1:
